@@ -43,6 +43,59 @@ def build(sidecar_names=None, repo=None):
     return Engine(sc, fe)
 
 
+LOCALS_AT_LEDGER = {}      # qual -> sorted local names when the ledger was recorded (set by check.py)
+RENAMED = {}               # qual -> (new name, old name) of the renames applied in this run (reported in the evidence)
+
+
+def _own_locals(fn):
+    """names bound inside the function (assignments, loop / comprehension / with / except targets), parameters excluded"""
+    import ast
+    from .slicing import assigned_names
+    params = {a.arg for a in fn.args.posonlyargs + fn.args.args + fn.args.kwonlyargs}
+    if fn.args.vararg:
+        params.add(fn.args.vararg.arg)
+    if fn.args.kwarg:
+        params.add(fn.args.kwarg.arg)
+    return sorted(n for n in assigned_names(fn.body) if n not in params)
+
+
+def function_locals(E, qual):
+    try:
+        c = E.sc.impl_contracts.get(qual) or E.find_contract(qual)
+        m, cls, fn, enclosing = E.fe.find_function(c.opts.get('impl', qual) if c is not None else qual)
+        return _own_locals(fn)
+    except Exception:
+        return None
+
+
+def rename_tolerance(qual, fn):
+    """DESIGN 2.1: sidecar contracts name locals of the real function.  If, compared with the local names recorded with the
+    ledger, exactly ONE name has disappeared and exactly ONE new name has appeared, the local was renamed: the function is
+    verified with the old name substituted back (on a copy of its AST), so loop invariants and site clauses still bind.
+    Anything else (two renames, a new helper variable plus a removed one ...) is not guessed."""
+    import ast
+    import copy
+    old = LOCALS_AT_LEDGER.get(qual)
+    if not old:
+        return fn
+    now = _own_locals(fn)
+    gone = [n for n in old if n not in now]
+    new = [n for n in now if n not in old]
+    if len(gone) != 1 or len(new) != 1:
+        return fn
+    o, n = gone[0], new[0]
+    if any(isinstance(x, ast.Name) and x.id == o for x in ast.walk(fn)):
+        return fn       # the old name is still used (e.g. as a global): do not touch
+    fn2 = copy.deepcopy(fn)
+    for x in ast.walk(fn2):
+        if isinstance(x, ast.Name) and x.id == n:
+            x.id = o
+        elif isinstance(x, ast.ExceptHandler) and x.name == n:
+            x.name = o
+    RENAMED[qual] = (n, o)
+    return fn2
+
+
 def generate(E, qual):
     """returns (FuncVerifier, obligations) for the function `qual`"""
     c = E.sc.impl_contracts.get(qual) or E.find_contract(qual)
@@ -62,6 +115,7 @@ def generate(E, qual):
         c.params = [(n, (cls.key if n == 'self' else t)) for n, t in fam.params]
         c.opts = dict(fam.opts, family_of=fam.qual)
     m, cls, fn, enclosing = E.fe.find_function(c.opts.get('impl', qual))
+    fn = rename_tolerance(qual, fn)
     fv = FuncVerifier(E, qual, fn, c, module=m, cls=cls, enclosing=enclosing)
     fv.run()
     return fv
